@@ -313,13 +313,14 @@ def clause_imeta(prog, rep):
     # entries are written as "<key> <value>" where the value may itself contain spaces (file names): the parser must cut each
     # entry at the FIRST space only
     g0 = r[0]
-    spl = [c for c in g0.live_calls() if c.name == "splitn" and (c.krate in ("core", "alloc", "std"))]
+    fam0 = prog.family(g0)
+    spl = [c for g_ in fam0 for c in g_.live_calls() if c.name in ("splitn", "split_once") and (c.krate in ("core", "alloc", "std"))]
     okspl = False
     for c in spl:
         ints = [a["c"]["int"] for a in c.args if "c" in a and "int" in a["c"]]
-        if 2 in ints and 32 in ints:       # n = 2, separator ' '
+        if (c.name == "splitn" and 2 in ints and 32 in ints) or (c.name == "split_once" and 32 in ints):       # n = 2, separator ' '
             okspl = True
-    bad = [c.name for c in g0.live_calls() if c.name in ("split_whitespace", "split_ascii_whitespace")]
+    bad = [c.name for g_ in fam0 for c in g_.live_calls() if c.name in ("split_whitespace", "split_ascii_whitespace", "rsplit_once", "rsplitn")]
     rep.check(okspl and not bad, "imeta-tables", "entry-split-at-first-space",
               "each entry is split with splitn(2, ' '): values containing spaces survive the round trip",
               "imeta entries are not split at the first space only (%s): a value containing a space (file name, URL) is truncated when parsed back"
@@ -333,7 +334,7 @@ def clause_imeta(prog, rep):
             always.add(pieces[0].strip())
     g = r[0]
     # required by the parser: ok_or(InvalidImetaTag) on the Option holding the parsed key -> count the `ok_or` unwraps
-    required_msgs = [s for _, s in g.str_consts() if s.startswith("Missing")]
+    required_msgs = sorted(set(s for g_ in prog.family(g) for _, s in g_.str_consts() if s.startswith("Missing")))
     rep.check(len(always) == len(required_msgs), "imeta-tables", "required-keys",
               "keys always written %s match the %d fields the parser requires" % (sorted(always), len(required_msgs)),
               "the writer always writes %s but the parser requires %d fields: a tag produced by the library may not parse back" % (sorted(always), len(required_msgs)), f.loc())
